@@ -44,10 +44,18 @@ MCRoleOf == [f \in MCFiles |->
 Names == {"n", "w", "x"}
 
 AllConfKinds == {"absent", "irrelevant", "def", "def2", "override", "star", "imp", "imp_nonfix",
-                 "plugins", "star2", "imp2"}
-MCLevelsFull == [l \in 0..2 |-> CASE l = 0 -> AllConfKinds \ {"star2", "imp2"}
-                                  [] l = 1 -> AllConfKinds \ {"plugins"}
-                                  [] l = 2 -> AllConfKinds \ {"plugins", "star2", "imp2"}]
+                 "plugins", "star2", "imp2", "autodef"}
+MCLevelsFull == [l \in 0..2 |-> CASE l = 0 -> AllConfKinds \ {"star2", "imp2", "autodef"}
+                                  [] l = 1 -> AllConfKinds \ {"plugins", "autodef"}
+                                  [] l = 2 -> AllConfKinds \ {"plugins", "star2", "imp2", "autodef"}]
+MCLevelsCli == [l \in 0..2 |-> CASE l = 0 -> {"absent", "def", "autodef", "star", "imp_nonfix"}
+                                 [] l = 1 -> {"absent", "def", "autodef", "override", "imp"}
+                                 [] l = 2 -> {"absent", "irrelevant", "def", "def2", "override"}]
+MCSameCli == {"none", "def", "override"}
+MCExtraCli == SUBSET {"cs", "o", "tp"}
+MCUseCli == {"tp", "um"}
+MCUFilesU == {"u"}
+MCEmitCli == {"goto", "refs", "unused"}
 MCLevelsChain == [l \in 0..2 |-> {"absent", "def", "override"}]
 MCSameChain == {"none", "def", "override"}
 MCExtraChain == {{}, {"pl"}, {"tp"}, {"pl", "tp"}, {"plo"}, {"plo", "tp"}}
@@ -77,6 +85,7 @@ ConfItems(k, l) ==
       [] k = "def"        -> <<DefN>>
       [] k = "def2"       -> <<DefN, PlainDef("x", <<>>), DefN>>
       [] k = "override"   -> <<OverN>>
+      [] k = "autodef"    -> <<Def("n", <<>>, 0, TRUE)>>
       [] k = "star"       -> <<Star(HelpFile(l))>>
       [] k = "imp"        -> <<Imp(HelpFile(l), "n")>>
       [] k = "imp_nonfix" -> <<Imp(HelpFile(l), "n")>>
@@ -230,7 +239,7 @@ RffRow(r, j) ==
 
 UnusedRow ==
     [impl |-> ImplUnused(Ix, AllDevs),
-     py   |-> { [file |-> D.file, name |-> DefItem(Ws, D).name] : D \in PyUnused(Ws) },
+     py   |-> PyUnusedNames(Ws),
      counts |-> { [file |-> r.file, name |-> r.name, n |-> ImplCliCountSeq(Ix, AllDevs, r.file, r.name)]
                   : r \in AllRecs }]
 
